@@ -336,8 +336,7 @@ theorem run_flush (s : Sys) :
       if s.flushed = true then (s, .ret .none)
       else ({ s with flushed := true }, SrcChan._flush_queue_for1 (.ret .none) (s.waiting - s.queue.length)) := by
   cases hf : s.flushed <;> simp [SrcChan._flush_queue, runSync, hf, run_flush_for1, rangeCount, PyChan.max]
-  congr 1
-  split <;> omega
+  all_goals (congr 1; first | omega | (split <;> omega))
 
 /-! ### the pieces of `micro`, by the translated source -/
 
